@@ -240,7 +240,15 @@ impl RoutingTable {
 
     /// Get `limit` closest peers to `target` from the k-buckets.
     pub fn closest<K: Clone>(&mut self, target: &Key<K>, limit: usize) -> Vec<KademliaPeer> {
+        // The bucket iterator yields bucket 0 once while zooming in (if bit 0 of the distance
+        // is set or the target is the local key) and again as the start of zooming out; its
+        // peers must only be returned once.
+        let mut first_bucket_visited = false;
+
         ClosestBucketsIter::new(self.local_key.distance(&target))
+            .filter(|index| {
+                index.get() != 0 || !std::mem::replace(&mut first_bucket_visited, true)
+            })
             .flat_map(|index| self.buckets[index.get()].closest_iter(target))
             .take(limit)
             .cloned()
